@@ -170,6 +170,8 @@ type l2Stats struct {
 	creates, newSegs, selects, retentions, forced, idle, reopens, updates, ttlUpdates, peeks int
 	betweenExisting, legacyCap, dstDay, deleteWhileHeld, idleWhileHeld                       bool
 	failedAcquire, nearExpiry, hiddenBeforeDelete, multiSeg                                  bool
+	litter, snapshots                                                                        int
+	tmpLitter, snapClosed                                                                    bool
 }
 
 func unitOf(s string) IntervalUnit {
@@ -347,6 +349,139 @@ func (e *l2Env) invariants(what string) error {
 			}
 		} else if err == nil {
 			return fmt.Errorf("%s: segment [%s,%s) selected for deletion and released by its last holder is still on disk", what, m.start, m.end)
+		}
+	}
+	return nil
+}
+
+// l2Litter is the catalogue of engine artifacts a "litter" operation places in a shard directory (bit i of op.T selects entry i).
+var l2Litter = []string{
+	"0000000000000010/meta.bin", "0000000000000010/primary.bin", "0000000000000011.snp", "000000000000000f.snp.tmp", "idx/seg-1.seg", "idx/bluge.pid",
+	"failed-parts/0000000000000009/meta.bin", "zz.tmp", "sidx/duration/0000000000000010/keys.bin", "idx/external-segment-temp/x.seg", "0000000000000003.snp.tmp",
+	"0000000000000012/meta.bin",
+}
+
+// transient reports whether a path below a closed segment is one of the documented transient artifacts a snapshot may leave out.
+func l2Transient(rel string) bool {
+	for _, part := range strings.Split(filepath.ToSlash(rel), "/") {
+		if part == "bluge.pid" || part == FailedPartsDirName || part == "external-segment-temp" || strings.HasSuffix(part, ".tmp") {
+			return true
+		}
+	}
+	return false
+}
+
+// snapshot takes a file snapshot of the database and checks it: no segment changes its open/closed state (a closed segment is
+// never reopened), every listed segment is in the copy with its metadata, a closed segment's copy holds every non-transient file
+// of the segment directory with identical content, an open segment's copy holds every shard's rows; the copy opens as a
+// database and serves, segment by segment, exactly the rows written before the request.
+func (e *l2Env) snapshot(what string) error {
+	e.seq++
+	dst := filepath.Join(e.dir, fmt.Sprintf("snap-%d", e.seq))
+	opensBefore := fakeOpenCount.Load()
+	ok, err := e.db.TakeFileSnapshot(dst)
+	if err != nil {
+		return fmt.Errorf("%s: TakeFileSnapshot failed: %v", what, err)
+	}
+	defer os.RemoveAll(dst)
+	e.stats.snapshots++
+	if fakeOpenCount.Load() != opensBefore {
+		return fmt.Errorf("%s: the snapshot opened %d shard table(s): a closed segment was reopened", what, fakeOpenCount.Load()-opensBefore)
+	}
+	if err := e.invariants(what + " (after the snapshot)"); err != nil {
+		return err
+	}
+	if len(e.segs) == 0 {
+		if ok {
+			return fmt.Errorf("%s: snapshot of a database without segments reports success", what)
+		}
+		return nil
+	}
+	if !ok {
+		return fmt.Errorf("%s: snapshot of %d segment(s) reports that nothing was written", what, len(e.segs))
+	}
+	for _, m := range e.segs {
+		segDst := filepath.Join(dst, filepath.Base(m.loc))
+		srcMeta, rerr := os.ReadFile(filepath.Join(m.loc, metadataFilename))
+		if rerr != nil {
+			return rerr
+		}
+		dstMeta, rerr := os.ReadFile(filepath.Join(segDst, metadataFilename))
+		if rerr != nil || string(srcMeta) != string(dstMeta) {
+			return fmt.Errorf("%s: segment [%s,%s) (open=%v): metadata is missing from the snapshot or differs (%v)", what, m.start, m.end, m.open, rerr)
+		}
+		if !m.open {
+			e.stats.snapClosed = true
+			werr := filepath.Walk(m.loc, func(p string, info os.FileInfo, err error) error {
+				if err != nil || info.IsDir() {
+					return err
+				}
+				rel, _ := filepath.Rel(m.loc, p)
+				if l2Transient(rel) {
+					return nil
+				}
+				want, rerr := os.ReadFile(p)
+				if rerr != nil {
+					return rerr
+				}
+				got, rerr := os.ReadFile(filepath.Join(segDst, rel))
+				if rerr != nil {
+					return fmt.Errorf("%s: closed segment [%s,%s): %s is missing from the snapshot", what, m.start, m.end, rel)
+				}
+				if string(got) != string(want) {
+					return fmt.Errorf("%s: closed segment [%s,%s): %s differs in the snapshot", what, m.start, m.end, rel)
+				}
+				return nil
+			})
+			if werr != nil {
+				return werr
+			}
+		}
+		// rows per shard
+		got := map[string]string{}
+		for sh := 0; sh < 2; sh++ {
+			for k, v := range readTableDir(filepath.Join(segDst, fmt.Sprintf(shardTemplate, sh))) {
+				got[fmt.Sprintf("%d/%s", sh, k)] = v
+			}
+		}
+		if fmt.Sprint(got) != fmt.Sprint(m.rows) {
+			return fmt.Errorf("%s: segment [%s,%s) (open=%v): the snapshot holds the rows %v, written before the request: %v", what, m.start, m.end, m.open, got, m.rows)
+		}
+	}
+	// the copy opens as a database
+	ropts := e.opts
+	ropts.Location = dst
+	ctx := timestamp.SetClock(context.Background(), e.clock)
+	ctx = common.SetPosition(ctx, func(p common.Position) common.Position {
+		p.Database = "verif-restored"
+		return p
+	})
+	rdb, oerr := OpenTSDB(ctx, ropts, nil, "verif-group")
+	if oerr != nil {
+		return fmt.Errorf("%s: the snapshot does not open as a database: %v", what, oerr)
+	}
+	r := rdb.(*database[*fakeTable, int])
+	r.scheduler.Close()
+	defer r.Close()
+	rsegs := r.segmentController.copySegments()
+	if len(rsegs) != len(e.segs) {
+		return fmt.Errorf("%s: the restored database lists %d segments, the source %d", what, len(rsegs), len(e.segs))
+	}
+	for i, rs := range rsegs {
+		m := e.segs[i]
+		if !rs.Start.Equal(m.start) || !rs.End.Equal(m.end) {
+			return fmt.Errorf("%s: restored segment %d is [%s,%s), the source has [%s,%s)", what, i, rs.Start, rs.End, m.start, m.end)
+		}
+		tt, _ := rs.Tables()
+		got := map[string]string{}
+		for _, tb := range tt {
+			sh := strings.TrimPrefix(filepath.Base(tb.root), "shard-")
+			for k, v := range readTableDir(tb.root) {
+				got[sh+"/"+k] = v
+			}
+		}
+		if fmt.Sprint(got) != fmt.Sprint(m.rows) {
+			return fmt.Errorf("%s: restored segment [%s,%s) serves the rows %v, written before the request: %v", what, m.start, m.end, got, m.rows)
 		}
 	}
 	return nil
@@ -687,6 +822,37 @@ func (e *l2Env) step(i int, op sOp) error {
 			}
 			e.removeModel(e.segs[0])
 		}
+	case "litter":
+		// files an engine leaves in a shard directory (parts, manifests, interrupted atomic writes, index directories, lock files)
+		if len(e.segs) == 0 {
+			return nil
+		}
+		m := e.segs[op.N%len(e.segs)]
+		shardDir := filepath.Join(m.loc, fmt.Sprintf(shardTemplate, int(op.T2%2)))
+		if _, err := os.Stat(shardDir); err != nil {
+			return nil
+		}
+		for bit, rel := range l2Litter {
+			if op.T&(1<<uint(bit)) == 0 {
+				continue
+			}
+			full := filepath.Join(shardDir, filepath.FromSlash(rel))
+			if err := os.MkdirAll(filepath.Dir(full), 0o700); err != nil {
+				return err
+			}
+			e.seq++
+			if err := os.WriteFile(full, []byte(fmt.Sprintf("litter-%d-%s", e.seq, rel)), 0o600); err != nil {
+				return err
+			}
+			if strings.HasSuffix(rel, ".tmp") {
+				e.stats.tmpLitter = true
+			}
+		}
+		e.stats.litter++
+	case "snapshot":
+		if err := e.snapshot(what); err != nil {
+			return err
+		}
 	case "idleclose":
 		e.db.segmentController.idleTimeout = -time.Hour // every dormant segment counts as idle
 		e.db.segmentController.closeIdleSegments()
@@ -988,6 +1154,9 @@ func genL2(t *rapid.T, p l2Profile, ks *verifkit.KnownSet) sCase {
 			op.T, op.T2, op.N = genT("a"), genT("b"), rapid.IntRange(1, 3).Draw(t, "slot")
 		case "release":
 			op.N = rapid.IntRange(1, 3).Draw(t, "slot")
+		case "litter":
+			op.N, op.T2 = rapid.IntRange(0, 5).Draw(t, "lseg"), int64(rapid.IntRange(0, 1).Draw(t, "lshard"))
+			op.T = int64(rapid.IntRange(1, 1<<len(l2Litter)-1).Draw(t, "lmask"))
 		case "poison":
 			op.N = rapid.IntRange(0, 5).Draw(t, "which")
 		case "advance":
@@ -1169,5 +1338,73 @@ func TestVerifC14(t *testing.T) {
 			return nil
 		},
 		MinLabelFrac: map[string]float64{"delete while held": 0.01, "idle-close while held": 0.05, "failed acquisition (injected reopen failure)": 0.01},
+	})
+}
+
+func TestVerifC19Storage(t *testing.T) {
+	p := l2Profile{kinds: []string{"create", "create", "create", "hold", "release", "release", "idleclose", "idleclose", "litter", "litter", "snapshot", "snapshot", "select", "advance", "reopen"},
+		maxOps: 20, ttl: []int{400}, legacy: false, zones: []string{"UTC"}}
+	verifkit.Run(t, verifkit.Spec[sCase]{
+		Property: "C19", Unit: "storage_snapshot",
+		Rule: "1..20 operations on a real TSDB (2 shards, file-backed stand-in tables): create a segment / write a row (optionally keeping the reference), hold, " +
+			"release, idle-close, restart, litter (engine artifacts placed in a shard directory: part directories, *.snp manifests, *.snp.tmp and *.tmp leftovers " +
+			"that sort before and after them, idx / sidx directories, lock file, failed-parts) and TakeFileSnapshot at generated positions over open, dormant and " +
+			"idle-closed segments; oracle per snapshot: no shard table is opened and no segment changes its open/closed state, every segment is in the copy with " +
+			"its metadata, the copy of a closed segment holds every non-transient file with identical content, the copy opens as a database and serves per " +
+			"segment exactly the rows written before the request; non-trivial = a snapshot over an idle-closed segment that holds a *.tmp leftover",
+		Gen: func(t *rapid.T, ks *verifkit.KnownSet) sCase {
+			if rapid.IntRange(0, 3).Draw(t, "free") == 0 {
+				return genL2(t, p, ks)
+			}
+			// rounds of: writes into a few segments, artifacts, idle-close (segments with a kept reference stay open), some reopened, snapshot
+			c := sCase{Zone: "UTC", Unit: rapid.SampledFrom([]string{"hour", "day"}).Draw(t, "unit"), Num: 1, TTLDays: 400, Base: rapid.SampledFrom(l2Bases).Draw(t, "base")}
+			unitMin := int64(60)
+			if c.Unit == "day" {
+				unitMin = 1440
+			}
+			for round := rapid.IntRange(1, 3).Draw(t, "rounds"); round > 0; round-- {
+				for k := rapid.IntRange(1, 4).Draw(t, "creates"); k > 0; k-- {
+					op := sOp{Kind: "create", T: rapid.Int64Range(-3, 3).Draw(t, "u")*unitMin + rapid.Int64Range(0, 30).Draw(t, "d"), N: rapid.IntRange(0, 1).Draw(t, "shard")}
+					if rapid.IntRange(0, 4).Draw(t, "keep") == 0 {
+						op.T2 = int64(rapid.IntRange(1, 3).Draw(t, "slot"))
+					}
+					c.Ops = append(c.Ops, op)
+				}
+				for k := rapid.IntRange(0, 3).Draw(t, "litters"); k > 0; k-- {
+					c.Ops = append(c.Ops, sOp{Kind: "litter", N: rapid.IntRange(0, 5).Draw(t, "lseg"), T2: int64(rapid.IntRange(0, 1).Draw(t, "lshard")),
+						T: int64(rapid.IntRange(1, 1<<len(l2Litter)-1).Draw(t, "lmask"))})
+				}
+				if rapid.IntRange(0, 3).Draw(t, "idle") > 0 {
+					c.Ops = append(c.Ops, sOp{Kind: "idleclose"})
+					if rapid.IntRange(0, 2).Draw(t, "touch") == 0 {
+						c.Ops = append(c.Ops, sOp{Kind: "select", T: rapid.Int64Range(-3, 3).Draw(t, "sa") * unitMin, T2: rapid.Int64Range(-3, 3).Draw(t, "sb") * unitMin, N: 1})
+					}
+				}
+				c.Ops = append(c.Ops, sOp{Kind: "snapshot"})
+				switch rapid.IntRange(0, 3).Draw(t, "after") {
+				case 0:
+					c.Ops = append(c.Ops, sOp{Kind: "release", N: rapid.IntRange(1, 3).Draw(t, "rslot")})
+				case 1:
+					c.Ops = append(c.Ops, sOp{Kind: "reopen"})
+				}
+			}
+			return c
+		},
+		SampleOf: l2Sample,
+		Check: func(x *verifkit.Ctx, c sCase) error {
+			st, err := runL2(x, c)
+			if err != nil {
+				return err
+			}
+			x.LabelIf(st.snapshots > 0, "snapshot taken")
+			x.LabelIf(st.snapClosed, "snapshot over an idle-closed segment")
+			x.LabelIf(st.snapClosed && st.litter > 0, "closed segment with engine artifacts")
+			x.LabelIf(st.snapClosed && st.tmpLitter, "closed segment with a .tmp leftover")
+			if st.snapClosed && st.tmpLitter {
+				x.NonTrivial()
+			}
+			return nil
+		},
+		MinLabelFrac: map[string]float64{"snapshot taken": 0.5, "snapshot over an idle-closed segment": 0.15, "closed segment with a .tmp leftover": 0.05},
 	})
 }
